@@ -941,6 +941,39 @@ pub proof fn lemma_message_roundtrip(h: crate::IppHeader, gs: Seq<IppAttributeGr
     lemma_attrs_roundtrip(gs, b, ops, others, payload);
 }
 
+/// no group after the first is an operation group (with `message_dom`: exactly one operation group, first)
+pub open spec fn one_op(gs: Seq<IppAttributeGroup>) -> bool {
+    forall|i: int| 0 < i < gs.len() ==> (#[trigger] gs[i]).stag() != DelimiterTag::OperationAttributes
+}
+
+pub proof fn lemma_non_op_idx(gs: Seq<IppAttributeGroup>, n: int)
+    requires message_dom(gs), one_op(gs), 1 <= n <= gs.len(),
+    ensures non_op_idx(gs, n) =~= Seq::new((n - 1) as nat, |i: int| i + 1),
+    decreases n,
+{
+    crate::verif_lemmas::lemma_first_op(gs);
+    if n > 1 {
+        lemma_non_op_idx(gs, n - 1);
+        assert(gs[n - 1].stag() != DelimiterTag::OperationAttributes);
+    } else {
+        assert(non_op_idx(gs, 0) =~= Seq::<int>::empty());
+    }
+}
+
+/// C01 (former assumption A-groups, now proved from the encoder's completeness clause): in the domain, what is read back is
+/// ALL groups of the message, in message order
+pub proof fn lemma_all_groups(gs: Seq<IppAttributeGroup>, b: Seq<u8>, ops: Seq<String>, others: Seq<(int, Seq<String>)>)
+    requires message_dom(gs), one_op(gs), attrs_enc_ok(gs, b, ops, others),
+    ensures expected_groups(gs, ops, others) =~= gs.map_values(|g: IppAttributeGroup| gabs(g)),
+{
+    lemma_non_op_idx(gs, gs.len() as int);
+    let e = expected_groups(gs, ops, others);
+    assert(others.len() == gs.len() - 1) by { assert(others_idx(others).len() == others.len()); }
+    assert forall|i: int| 0 <= i < e.len() implies e[i] == gabs(gs[i]) by {
+        if i > 0 { assert(others_idx(others)[i - 1] == others[i - 1].0); }
+    }
+}
+
 
 // ------------------------------------------------------------------ the abstraction of real values is canonical
 
